@@ -121,6 +121,8 @@ fn wd_strategy() -> BS<Wd> {
 const DYN_MARGIN: i128 = 100;
 
 thread_local! {
+    static TZ_FORMAT: hifitime::efmt::Format = <hifitime::efmt::Format as std::str::FromStr>::from_str("%A %a %Y-%m-%d").unwrap();
+    static W_FORMAT: hifitime::efmt::Format = <hifitime::efmt::Format as std::str::FromStr>::from_str("%w %Y").unwrap();
     static WEEKDAY_FORMAT: hifitime::efmt::Format = <hifitime::efmt::Format as std::str::FromStr>::from_str("%A %a").unwrap();
 }
 
@@ -172,6 +174,38 @@ fn wd_oracle(c: &Wd) -> Verdict {
         let own = weekday_of_day1900(c.g.div_euclid(NS_D) as i64) as usize;
         let fa = lib!(format!("{}", hifitime::efmt::Formatter::new(e, WEEKDAY_FORMAT.with(|f| *f))));
         ensure!(fa == format!("{} {}", WEEKDAY_LONG[own], WEEKDAY_SHORT[own]), "\"%A %a\" of {} count {} prints {:?}, want {} {}", SCALE_NAMES[c.s], cnt, fa, WEEKDAY_LONG[own], WEEKDAY_SHORT[own]);
+    }
+    // with a time-zone offset the printed weekday is that of the shifted date printed next to it
+    {
+        let off_min = (crate::props::c08::day_hash(c.g.div_euclid(NS_D) as i64, 9) % 2879) as i128 - 1439;
+        let shifted = c.g + off_min * NS_MIN;
+        let sg = greg_of_ns1900(shifted);
+        if (1..=9999).contains(&sg.y) {
+            let own = weekday_of_day1900(shifted.div_euclid(NS_D) as i64) as usize;
+            let fa = lib!(format!("{}", hifitime::efmt::Formatter::with_timezone(e, mk(off_min * NS_MIN), TZ_FORMAT.with(|f| *f))));
+            let want = format!("{} {} {}-{:02}-{:02}", WEEKDAY_LONG[own], WEEKDAY_SHORT[own], fmt_year(sg.y), sg.m, sg.d);
+            ensure!(fa == want, "\"%A %a %Y-%m-%d\" of {} count {} with offset {} min prints {:?}, want {:?}", SCALE_NAMES[c.s], cnt, off_min, fa, want);
+        }
+        // %w is the C89 number (Sunday = 0) of the weekday; asserted where the TAI date and the own-scale date are the same day
+        let own = weekday_of_day1900(c.g.div_euclid(NS_D) as i64) as i64;
+        if own == wd {
+            let fw = lib!(format!("{}", hifitime::efmt::Formatter::new(e, W_FORMAT.with(|f| *f))));
+            ensure!(fw == format!("{} {}", (wd + 1) % 7, fmt_year(greg_of_ns1900(c.g).y)), "\"%w %Y\" of {} count {} prints {:?}, want day number {}", SCALE_NAMES[c.s], cnt, fw, (wd + 1) % 7);
+        }
+    }
+    // a date text with the wrong weekday name is refused, and the error names the civil weekday of that date (UTC text)
+    if c.s == S_UTC && (1..=9999).contains(&greg_of_ns1900(c.g).y) {
+        let g = greg_of_ns1900(c.g);
+        let own = weekday_of_day1900(c.g.div_euclid(NS_D) as i64) as usize;
+        let wrong = (own + 1 + c.target as usize % 6) % 7;
+        let txt = format!("{}, {:02} {} {} {:02}:{:02}:{:02}", WEEKDAY_SHORT[wrong], g.d, MONTH_SHORT[(g.m - 1) as usize], fmt_year(g.y), g.hh, g.mm, g.ss);
+        match lib!(hifitime::efmt::consts::RFC2822.parse(&txt)) {
+            Err(hifitime::HifitimeError::Parse { source: hifitime::ParsingError::WeekdayMismatch { found, expected }, .. }) => {
+                ensure!(idx(expected) as usize == own && idx(found) as usize == wrong, "{:?}: the error says found {:?}, expected {:?}; the date is a {}", txt, found, expected, WEEKDAY_LONG[own]);
+            }
+            Err(_) => {}
+            Ok(p) => return Verdict::Fail(format!("{:?} (a {} called {}) is accepted as {}", txt, WEEKDAY_LONG[own], WEEKDAY_SHORT[wrong], p)),
+        }
     }
     // next / previous
     let w = WD[c.target as usize];
